@@ -3,6 +3,8 @@ import fcntl, hashlib, json, os, re, shutil, subprocess, sys, time
 
 VERIF = os.path.dirname(os.path.dirname(os.path.abspath(__file__)))
 REPO = os.environ.get("VERIF_REPO", "/repo")
+# evidence directory (seed runs redirect it so that evidence/ keeps describing the unchanged tree)
+EVID = os.environ.get("VERIF_EVIDENCE_DIR") or os.path.join(os.path.dirname(os.path.dirname(os.path.abspath(__file__))), "evidence")
 LEAN = os.path.join(VERIF, "lean")
 BUILD = os.path.join(VERIF, ".build")
 WORK = os.path.join(VERIF, ".work")
@@ -370,7 +372,7 @@ def main(argv):
     t_start = time.time()
     log = []
     os.makedirs(WORK, exist_ok=True)
-    os.makedirs(os.path.join(VERIF, "evidence"), exist_ok=True)
+    os.makedirs(EVID, exist_ok=True)
     workdir = os.path.join(WORK, "%s-%d" % (pid, os.getpid()))
     shutil.rmtree(workdir, ignore_errors=True)
     os.makedirs(workdir)
@@ -560,7 +562,7 @@ def main(argv):
         "wall_s": round(wall, 2),
         "violations": violations_n if exit_code else 0,
     }
-    with open(os.path.join(VERIF, "evidence", pid + ".json"), "w") as f:
+    with open(os.path.join(EVID, pid + ".json"), "w") as f:
         json.dump(ev, f, indent=1, sort_keys=True)
         f.write("\n")
     shutil.rmtree(workdir, ignore_errors=True)
